@@ -49,6 +49,18 @@ pub fn named_of(s: &Sexp) -> Result<NamedArg, String> {
                         "literal" => d.literal(tx),
                         "emphasis" => d.emphasis(tx),
                         "invalid" => d.invalid(tx),
+                        o if o.starts_with("doc-") => {
+                            // an embedded document (Doc::doc) holding one fragment of the given style
+                            let mut sub = bpaf::Doc::default();
+                            match &o[4..] {
+                                "text" => sub.text(tx),
+                                "literal" => sub.literal(tx),
+                                "emphasis" => sub.emphasis(tx),
+                                "invalid" => sub.invalid(tx),
+                                o => return Err(format!("bad style {}", o)),
+                            }
+                            d.doc(&sub)
+                        }
                         o => return Err(format!("bad style {}", o)),
                     }
                 }
